@@ -23,7 +23,7 @@ func init() {
 		"For every item whose []byte variant is a distinct Go type: the TL1 / TL2 / JSON encoding of a random string-variant value (optionally mutated) is decoded by both variants; verdicts must agree, and all three encodings of the two decoded objects must be identical (for mutated inputs only for types without map-backed dictionaries, whose order legitimately differs).",
 		"property-based testing (rapid): differential oracle between the two generated variants",
 		"non-trivial iff the input differs from the zero value's encoding",
-		nil, []floor{{"accepted", 0.5, ""}}, gOpts{QSets: []string{"cases", "goldmaster"}, TSets: []string{"cases", "goldmaster", "schema"}})
+		nil, []floor{{"accepted", 0.5, ""}}, gOpts{})
 	specs["C13"] = genSpec(
 		"Generic half (every TL2-enabled item of the repository schemas): the top-level object re-encoded with a huge-form size, the empty object as an explicit zero mask (01 00), must decode to the same value (minimal re-encoding identical) leaving appended bytes untouched; a valid encoding with 1..n bytes cut from its end (declared size exceeds the remaining input) must be rejected. Schema-evolution half (hand-written TL2 schema pairs generated as two packages in one binary): values written by the newer version must be read by the older one and vice versa, equal on the common fields.",
 		"property-based testing (rapid): metamorphic re-encodings + cross-version differential",
@@ -35,7 +35,7 @@ func init() {
 		"exhaustive enumeration of generated registries against an independently parsed schema (test-oracle differential)",
 		"one case per registry item plus one per schema combinator missing from the registry; all are non-trivial; exhaustive: true per schema set",
 		[]string{"expected items come from internal/tlast (parser + Crc32), whose tag rule is checked independently by C23"},
-		nil, gOpts{QSets: []string{"cases", "goldmaster"}, QShards: 1, TShards: 1, TSets: []string{"cases", "goldmaster", "schema"}})
+		nil, gOpts{QShards: 1, TShards: 1})
 	specs["C18"] = genSpec(
 		"For every item and (seed, size/mask profile): FillRandom must return (60 s watchdog; runaway recursion dies on a 256 MiB stack limit and is attributed through the journal), the value must be accepted by WriteTL1General (error = violation), WriteTL2 and WriteJSONGeneral must not panic, a second run with the same seed must give byte-identical TL1/TL2/JSON, and for functions the output of FillRandomResultTL1 must be accepted and fully consumed by the result reader.",
 		"property-based testing (rapid): termination/validity/determinism oracle over seeds and generator profiles",
